@@ -10,11 +10,14 @@
   `pattern_matches`; `Spec`: the flat set of subscriptions held, one delivery per matching
   subscription, the meaning of `* ? \x`.  All history theorems quantify over every list of
   operations from the empty manager.
-  Tie to the code: lib/c14.py reads the switch `dedup` off src/pubsub.rs and executes the
-  same histories on the real `PubSubManager` / `pattern_matches` (in-process) and on the real
-  server over TCP.
+  Tie to the code: translator/pubsub_consts.py regenerates `Gen.pubsubDedup` (is the
+  de-duplication still in `publish`?) and `Gen.pubsubGlobArms` (the arms of the matcher's
+  `match`) from src/pubsub.rs on every run; lib/c14.py executes the same histories on the real
+  `PubSubManager` / `pattern_matches` (in-process) and on the real server over TCP with the
+  model switch set from the same extraction.
 -/
 import FerrousSpec.Proofs.PubSubRaw
+import FerrousSpec.Gen.PubSub
 namespace Ferrous.C14
 open Ferrous Ferrous.PubSub
 
@@ -145,6 +148,16 @@ theorem delivered_only_to_subscribers (dedup : Bool) (ops : List Op) (ch : Bytes
   | none => exact (Spec.mem_deliveries_none _ _ _).1 hm
   | some p => exact (Spec.mem_deliveries_some _ _ _ _).1 hm
 
+/-- The statement about the tree as it is NOW (switch regenerated from src/pubsub.rs): the
+    exclusion hypothesis is only needed while the de-duplication is in the source; once it is
+    removed this is the full statement. -/
+theorem publish_eq_spec_this_tree (ops : List Op) (ch : Bytes)
+    (hno : Gen.pubsubDedup = true → ((Spec.deliveries (Spec.after [] ops) ch).map (·.1)).Nodup) :
+    (publish Gen.pubsubDedup (Code.after {} ops) ch).Perm (Spec.deliveries (Spec.after [] ops) ch) := by
+  cases h : Gen.pubsubDedup with
+  | true => exact (publish_eq_spec_partial ops ch (hno h)).1
+  | false => exact (publish_eq_spec ops ch).1
+
 /-! ### (4) Nothing after unsubscribing or disconnecting -/
 
 /-- After its disconnect (`unsubscribe_all`) a connection id receives no `message` / `pmessage`
@@ -199,47 +212,31 @@ theorem nothing_after_unsubscribe (dedup : Bool) (ops1 ops2 : List Op) (c : Conn
   rw [msgs_eq_blocks] at hm
   obtain ⟨b, hb, heb⟩ := List.mem_flatten.1 hm
   have hinv : Inv (Code.after {} (ops1 ++ [Op.unsubscribe c .chan xs])) := Inv.init.after _
-  have hrel := Rel.init.after (ops1 ++ [Op.unsubscribe c .chan xs])
-  have hrel1 := Rel.init.after ops1
-  -- the spec set after the UNSUBSCRIBE
-  have hspec : Spec.after [] (ops1 ++ [Op.unsubscribe c .chan xs]) =
-      (loop (Spec.unsub1 .chan c) (Spec.after [] ops1) (xs.getD (Spec.heldBy (Spec.after [] ops1) c .chan))).1 := by
-    simp [Spec.after, List.foldl_append, Spec.next, Spec.apply, Spec.unsubscribe]
-  -- a loop of removals only removes, and removes every listed name
-  have hloop : ∀ (l : List Bytes) (s : Spec.State),
-      (∀ y, y ∈ Spec.heldBy (loop (Spec.unsub1 .chan c) s l).1 c .chan → y ∈ Spec.heldBy s c .chan ∧ y ∉ l) ∧
-      (∀ y, y ∈ Spec.heldBy (loop (Spec.unsub1 .chan c) s l).1 c .pat → y ∈ Spec.heldBy s c .pat) := by
-    intro l
-    induction l with
-    | nil => intro s; exact ⟨fun y hy => ⟨hy, by simp⟩, fun y hy => hy⟩
-    | cons x l ih =>
-      intro s
-      obtain ⟨i1, i2⟩ := ih (Spec.unsub1 .chan c s x).1
-      constructor
-      · intro y hy
-        have := i1 y (by simpa [loop] using hy)
-        simp only [Spec.unsub1] at this
-        rw [Spec.heldBy_filter_ne] at this
-        simp only [and_self, if_true, mem_srem] at this
-        exact ⟨this.1.1, by simp only [List.mem_cons, not_or]; exact ⟨this.1.2, this.2⟩⟩
-      · intro y hy
-        have := i2 y (by simpa [loop] using hy)
-        simp only [Spec.unsub1] at this
-        rw [Spec.heldBy_filter_ne] at this
-        simpa using this
   have hq : quiet (Code.after {} (ops1 ++ [Op.unsubscribe c .chan xs])) c ch := by
-    constructor
-    · rw [← hrel.heldEq, hspec]
-      intro hm
-      obtain ⟨h1, h2⟩ := (hloop _ _).1 ch hm
-      cases xs with
-      | none => exact h2 (by simpa using h1)
-      | some l => exact h2 (by simpa using hx l rfl)
-    · intro p hp
-      rw [← hrel.heldEq, hspec] at hp
-      rw [globBytes_eq_spec]
-      exact hpat p ((hloop _ _).2 p hp)
+    refine ⟨not_held_after_unsubscribe ops1 c .chan xs ch hx, ?_⟩
+    intro p hp
+    rw [Code.after_append] at hp
+    have hp' := held_next_subset (st := Code.after {} ops1) (op := Op.unsubscribe c .chan xs) rfl .pat p hp
+    rw [← (Rel.init.after ops1).heldEq] at hp'
+    rw [globBytes_eq_spec]
+    exact hpat p hp'
   exact quiet_blocks dedup ops2 _ hinv hq hops b hb e heb hch
+
+/-- After PUNSUBSCRIBE from pattern `p` (named, or without arguments) no `pmessage` naming `p`
+    reaches the connection, whatever the other clients do, until it subscribes again. -/
+theorem nothing_after_punsubscribe (dedup : Bool) (ops1 ops2 : List Op) (c : ConnId) (p : Bytes)
+    (xs : Option (List Bytes)) (hx : ∀ l, xs = some l → p ∈ l)
+    (hops : ∀ op ∈ ops2, op.subscribesAs c = false) :
+    ∀ ch m, Event.pmessage p ch m ∉
+      received (Code.log dedup (Code.after {} (ops1 ++ [Op.unsubscribe c .pat xs])) ops2) c := by
+  intro ch m he
+  have hm : Event.pmessage p ch m ∈
+      msgsOf (received (Code.log dedup (Code.after {} (ops1 ++ [Op.unsubscribe c .pat xs])) ops2) c) :=
+    List.mem_filter.2 ⟨he, rfl⟩
+  rw [msgs_eq_blocks] at hm
+  obtain ⟨b, hb, heb⟩ := List.mem_flatten.1 hm
+  exact quietPat_blocks dedup ops2 _ (Inv.init.after _) (not_held_after_unsubscribe ops1 c .pat xs p hx)
+    hops b hb ch m heb
 
 /-! ### (5) Publish order, bytes intact -/
 
@@ -288,6 +285,12 @@ theorem glob_correct (p s : Bytes) : globBytes p s = Spec.glob p s := globBytes_
     a final `\` and every other byte itself. -/
 theorem glob_correct_rel (p s : Bytes) : globBytes p s = true ↔ Spec.Glob p s := by
   rw [globBytes_eq_spec]; exact glob_iff_Glob p s
+
+/-- Tie to the code: the arms of `match pattern[p_idx]` in `pattern_matches` are exactly the four
+    that `gstep` transliterates (`?`, `*`, `\` followed by another byte, anything else); stops
+    checking when the matcher's grammar changes (e.g. `[...]` classes are added). -/
+theorem tree_glob_grammar :
+    Gen.pubsubGlobArms = ["b'?'", "b'*'", "b'\\\\' if p_idx + 1 < pattern.len()", "_"] := by decide
 
 /-- The loop's iteration budget in the model is never the reason for an answer. -/
 theorem glob_fuel_irrelevant (p s : Bytes) (fuel : Nat) (h : globFuel p s ≤ fuel) :
